@@ -154,12 +154,16 @@ struct BlendRowMaskClip;
 
 fn blend_row_mask_clip<T: blend::Blend>(src: &[u32], mask: &[u8], clip: &[u8], dst: &mut [u32]) {
     for (((dst, src), mask), clip) in dst.iter_mut().zip(src).zip(mask).zip(clip) {
-        *dst = alpha_lerp(
-            *dst,
-            T::blend(*src, *dst),
-            *mask as u32,
-            *clip as u32
-        );
+        // combine shape and clip coverage so that full coverage of both gives the blend result exactly.
+        // alpha_to_alpha256(0) is 1, so zero coverage has to be skipped to leave dst untouched
+        let coverage = muldiv255(*mask as u32, *clip as u32);
+        if coverage != 0 {
+            *dst = lerp(
+                *dst,
+                T::blend(*src, *dst),
+                alpha_to_alpha256(coverage),
+            );
+        }
     }
 }
 
